@@ -298,6 +298,7 @@ func propC19(w *World, r *Report, tier string) {
 	r.Sample(map[string]any{"rule": "glob.init-only", "package_level_variables": globals})
 	fns := e.AllRepoFunctions()
 	nGet := 0
+	reportedGlobal := map[string]bool{}
 	for _, f := range fns {
 		rel := relPkg(f.Pkg.Pkg)
 		if strings.HasPrefix(rel, "internal") {
@@ -319,13 +320,26 @@ func propC19(w *World, r *Report, tier string) {
 		bad := false
 		for root, site := range s.Mods {
 			if root.Kind == "global" {
-				// attribute to the direct writer only (reported above); here: transitive reachability from an API function
-				if site.Fn == name {
-					continue
-				}
+				// writes that reach a package-level variable through a callee (e.g. a method called on the global):
+				// reported once, at the function whose call passes the global
 				if _, ok := excluded[site.Fn]; ok {
 					continue
 				}
+				if _, ok := excluded[name]; ok {
+					continue
+				}
+				direct := false
+				for _, dw := range writes[root.Name] {
+					if dw.Fn == site.Fn {
+						direct = true
+					}
+				}
+				if !direct && !reportedGlobal[root.Name+"|"+site.Fn] {
+					reportedGlobal[root.Name+"|"+site.Fn] = true
+					bad = true
+					r.Fail("glob.init-only", name, root.Name, site.Pos, "package-level variable "+root.Name+" (or memory reachable from it) is written outside init: "+site.What+" in "+site.Fn+", reached from "+name, nil)
+				}
+				continue
 			}
 			if root.Kind == "unknown" || root.Kind == "freevar" {
 				bad = true
@@ -365,6 +379,20 @@ func propC19(w *World, r *Report, tier string) {
 		}
 		if !bad {
 			r.OK("eff.no-static")
+		}
+		// conversion helpers of nasConvert interpret their arguments: they must not write them
+		if rel == "nasConvert" && f.Signature.Recv() == nil && f.Object() != nil && f.Object().Exported() {
+			r.Site("eff.convert-readonly")
+			clean := true
+			for root, site := range s.Mods {
+				if root.Kind == "param" {
+					clean = false
+					r.Fail("eff.convert-readonly", name, fmt.Sprintf("writes argument %d", root.Idx), site.Pos, fmt.Sprintf("conversion helper writes memory reachable from its argument %d (%s in %s): concurrent readers of the same decoded contents would race", root.Idx, site.What, site.Fn), nil)
+				}
+			}
+			if clean {
+				r.OK("eff.convert-readonly")
+			}
 		}
 		// read-only use of a shared decoded message
 		isGetter := rel == "nasType" && strings.HasPrefix(f.Name(), "Get") && f.Signature.Recv() != nil
